@@ -452,6 +452,52 @@ def m10(rep):
         rep.ok("M10", "identifier-text-not-cut-by-format:none", sample={"formats": n})
 
 
+def m11(rep):
+    """Globals of one unit are found by another at run time by name: the exporter registers `fiExportGlobal("<name>", G_..)`,
+    the importer asks `fiImportGlobal("<name>", pG_..)`.  Exporter and importer are compiled separately -- the libraries with
+    the default options -- so the name used as the key must not depend on an option of the compilation that writes it.  In
+    genc.c the key is the text of the C identifier built by gc0MultVarId, which is cut at -Cidlen: a client compiled with any
+    other limit asks for names the library never registered and the executable faults at start-up.  Rule: the string handed to
+    fiImportGlobal / fiExportGlobal is not the `.symbol` of an identifier made by gc0MultVarId."""
+    f = common.extract("genc.c", all_trees=True)
+    n = 0
+    for name, fn in sorted(f.funcs.items()):
+        if "body" not in fn or not fn.get("file", "").endswith("genc.c"):
+            continue
+        if not any(y["k"] == "StringLiteral" and y.get("v") in ("fiImportGlobal", "fiExportGlobal") for y in walk(fn["body"])):
+            continue
+        cut = set()
+        for x in walk(fn["body"]):
+            if x["k"] == "BinaryOperator" and x["op"] == "=" and (strip(x["c"][0]) or {}).get("k") == "DeclRefExpr":
+                r = strip(x["c"][1])
+                if r is not None and r["k"] == "CallExpr" and r.get("callee") == "gc0MultVarId":
+                    cut.add(strip(x["c"][0])["n"])
+        par = common.parents(fn["body"])
+        seen = set()
+        for lit in [y for y in walk(fn["body"]) if y["k"] == "StringLiteral" and y.get("v") in ("fiImportGlobal", "fiExportGlobal")]:
+            # the statement this registration is built in
+            c = lit
+            while c["id"] in par and par[c["id"]]["k"] not in ("CompoundStmt", "IfStmt"):
+                c = par[c["id"]]
+            if c["id"] in seen:
+                continue
+            seen.add(c["id"])
+            lits = [lit["v"]]
+            n += 1
+            keyed = [y for y in walk(c) if y["k"] == "MemberExpr" and y["n"] == "symbol" and
+                     any(z["k"] == "DeclRefExpr" and z["n"] in cut for z in walk(y))]
+            key = "runtime-key-option-independent:%s" % lits[0]
+            if keyed:
+                rep.violation("M11", key, "genc.c:%d (%s)" % (c["l"], name),
+                              "the name under which a global is %s at run time is the text of the C identifier built by "
+                              "gc0MultVarId, which is cut at -Cidlen: a client compiled with a limit other than the one the "
+                              "libraries were built with (30) looks up names that were never registered; the executable links and "
+                              "faults at start-up (-Cidlen=31, 40, 64, 0)" % ("looked up" if "Import" in lits[0] else "registered"))
+            else:
+                rep.ok("M11", key)
+    rep.floor("run-time registrations of globals in genc.c", n, 2)
+
+
 def run(tier, only=None):
     rep = common.Report("C16", tier, EXPLANATION)
     f = common.extract("genc.c", all_cfg=True)
@@ -506,6 +552,7 @@ def run(tier, only=None):
     m8(rep)
     m9(rep)
     m10(rep)
+    m11(rep)
     mx = max(ch for ch, _, _ in rows if ch is not None)
     if mx >= bound:
         rep.violation("M3", "table-chars", "genc.c (ccSpecCharIdTable)", "character %d indexes tables of %d elements" % (mx, bound))
